@@ -29,6 +29,8 @@ func NewTernarySampler(prng sampling.PRNG, baseRing *Ring, X Ternary, montgomery
 	ts.prng = prng
 	ts.initializeMatrix(montgomery)
 	switch {
+	case X.H < 0 || X.P < 0 || X.P > 1:
+		return nil, fmt.Errorf("invalid TernaryDistribution: H must be positive and P in (0, 1]")
 	case X.P != 0 && X.H == 0:
 		ts.invDensity = 1 - X.P
 		ts.sample = ts.sampleProba
